@@ -36,6 +36,10 @@ pub enum WOp {
     Pairing(u8, u8),
     Hash(u8, bool, u8, BytesR, BytesR),
     Ser(u8, PointR, bool),
+    /// pairing of (+-g1, +-g2) - needs no point pool
+    PairGen(bool, bool),
+    /// checked decoding of the compressed / uncompressed encoding of +-generator (subgroup test inside)
+    DecodeGen(u8, bool, bool),
 }
 
 #[derive(Clone, Debug, Serialize, Deserialize, PartialEq, Eq, Hash)]
@@ -232,12 +236,12 @@ where
         }
         1 => cr("mul", || pa.mul(rp(&kz)))?,
         2 => cr("precomp3", || {
-            let mut pre = vec![G::Aff::zero(); 3];
+            let mut pre = scratch_table::<G>(3);
             pa.precomp_3(&mut pre);
             pa.mul_precomp_3(rp(&kz), &pre)
         })?,
         3 => cr("precomp256", || {
-            let mut pre = vec![G::Aff::zero(); 256];
+            let mut pre = scratch_table::<G>(256);
             pa.precomp_256(&mut pre);
             pa.mul_precomp_256(rp(&kz), &pre)
         })?,
@@ -383,6 +387,24 @@ fn exec<'a>(op: &WOp, sh: &Shared<'a>, lo: &mut Local<'a>) -> Result<Vec<u8>, St
             let e = cr("pairing", || Bls12::pairing(p, q))?;
             put_fq12(&mut out, &e);
         }
+        WOp::PairGen(np, nq) => {
+            let p = if *np { PointR::Neg(Box::new(PointR::Gen)) } else { PointR::Gen };
+            let q = if *nq { PointR::Neg(Box::new(PointR::Gen)) } else { PointR::Gen };
+            let e = cr("pairing", || Bls12::pairing(aff_c::<G1m>(&p.build::<G1m>()), aff_c::<G2m>(&q.build::<G2m>())))?;
+            put_fq12(&mut out, &e);
+        }
+        WOp::DecodeGen(g, neg, compressed) => {
+            let p = if *neg { PointR::Neg(Box::new(PointR::Gen)) } else { PointR::Gen };
+            if *g == 0 {
+                let bytes = refmodel::enc::encode(&p.build::<G1m>(), *compressed);
+                let a = G1m::decode_bytes(*compressed, &bytes, true)?.map_err(|e| format!("decoding +-generator failed: {:?}", e))?;
+                G1m::put_aff(&mut out, &a);
+            } else {
+                let bytes = refmodel::enc::encode(&p.build::<G2m>(), *compressed);
+                let a = G2m::decode_bytes(*compressed, &bytes, true)?.map_err(|e| format!("decoding +-generator failed: {:?}", e))?;
+                G2m::put_aff(&mut out, &a);
+            }
+        }
         WOp::Hash(g, ro, e, m, d) => {
             let (m, d) = (m.build(), d.build());
             if *g == 0 {
@@ -496,6 +518,124 @@ fn check_workload(w: &Workload, info: &mut Info) -> Result<(), String> {
             }
         }
     }
+    Ok(())
+}
+
+// ---- fresh processes: results must not depend on which call happened first in the process ---------------
+// (a lazily initialised process-wide table that captures its first caller's argument is invisible inside
+//  one long-lived process)
+
+#[derive(Clone, Debug, Serialize, Deserialize, PartialEq, Eq, Hash)]
+pub struct ProcCase {
+    pub ops: Vec<WOp>,
+    /// second order: rotation of the op list (the first order is the list as given)
+    pub rotate: u8,
+    pub reverse: bool,
+}
+
+/// operations that need no point pool (generator-derived points only), so that a child starts in milliseconds
+fn lite_op() -> BoxedStrategy<WOp> {
+    let gp = || prop_oneof![3 => Just(PointR::Gen), 3 => Just(PointR::Neg(Box::new(PointR::Gen))), 1 => Just(PointR::Identity)];
+    prop_oneof![
+        6 => (0u8..2, gp(), scalar_strategy(), 0u8..5).prop_map(|(g, p, k, path)| WOp::Mul(g, p, k, path)),
+        3 => (0u8..2, any::<bool>(), any::<bool>()).prop_map(|(g, n, c)| WOp::DecodeGen(g, n, c)),
+        2 => (0u8..2, gp(), any::<bool>()).prop_map(|(g, p, c)| WOp::Ser(g, p, c)),
+        2 => (0u8..2, gp(), gp()).prop_map(|(g, p, q)| WOp::Group(g, p, q)),
+        2 => (any::<bool>(), any::<bool>()).prop_map(|(a, b)| WOp::PairGen(a, b)),
+        2 => (0u8..2, any::<bool>(), 0u8..4, msg_strategy(), dst_strategy()).prop_map(|(g, ro, e, m, d)| WOp::Hash(g, ro, e, m, d)),
+        1 => (0u8..2, gp(), proptest::collection::vec(scalar_strategy(), 1..3)).prop_map(|(g, p, ks)| WOp::OwnWnaf(g, p, ks)),
+        1 => (0u8..2, proptest::collection::vec((gp(), scalar_strategy()), 0..4)).prop_map(|(g, v)| WOp::Msm(g, v)),
+        1 => (fq2_strategy(), fq2_strategy()).prop_map(|(a, b)| WOp::Fq2Arith(a, b)),
+        1 => fq2_strategy().prop_map(WOp::Sqrt),
+    ]
+    .boxed()
+}
+
+fn proc_strategy() -> BoxedStrategy<ProcCase> {
+    (proptest::collection::vec(lite_op(), 2..6), any::<u8>(), any::<bool>()).prop_map(|(ops, rotate, reverse)| ProcCase { ops, rotate, reverse }).boxed()
+}
+
+/// executed in a FRESH process (`verif-pbt child-exec`, request on stdin): runs the operations in the
+/// requested order and prints their raw result bytes
+pub fn child_exec(request: &str) -> Result<String, String> {
+    let v: serde_json::Value = serde_json::from_str(request).map_err(|e| e.to_string())?;
+    let ops: Vec<WOp> = serde_json::from_value(v["ops"].clone()).map_err(|e| e.to_string())?;
+    let order: Vec<usize> = serde_json::from_value(v["order"].clone()).map_err(|e| e.to_string())?;
+    let p_prep = aff_c::<G1m>(&G1m::gen()).prepare();
+    let q_prep = aff_c::<G2m>(&G2m::gen()).prepare();
+    // note: preparing the generators is itself library work that precedes the operations; it is the same
+    // in every child, and the parent comparison (different preceding work) covers the other direction
+    let sh = Shared { wb1: None, wb2: None, p_prep: &p_prep, q_prep: &q_prep };
+    let mut lo = Local::new(&sh);
+    let mut out = serde_json::Map::new();
+    for i in order {
+        let bytes = exec(&ops[i], &sh, &mut lo)?;
+        out.insert(i.to_string(), serde_json::Value::String(bytes.iter().map(|b| format!("{:02x}", b)).collect()));
+    }
+    Ok(serde_json::Value::Object(out).to_string())
+}
+
+fn run_child(ops: &[WOp], order: &[usize]) -> Result<Vec<(usize, String)>, String> {
+    use std::io::Write;
+    let exe = std::env::current_exe().map_err(|e| format!("harness: current_exe: {}", e))?;
+    let mut child = std::process::Command::new(exe)
+        .arg("child-exec")
+        .stdin(std::process::Stdio::piped())
+        .stdout(std::process::Stdio::piped())
+        .stderr(std::process::Stdio::null())
+        .spawn()
+        .map_err(|e| format!("harness: cannot spawn child: {}", e))?;
+    let req = serde_json::json!({"ops": ops, "order": order}).to_string();
+    child.stdin.take().unwrap().write_all(req.as_bytes()).map_err(|e| format!("harness: child stdin: {}", e))?;
+    let outp = child.wait_with_output().map_err(|e| format!("harness: child wait: {}", e))?;
+    let text = String::from_utf8_lossy(&outp.stdout).to_string();
+    if !outp.status.success() {
+        // the child reports a crate panic / failed operation as a message
+        return Err(format!("in a fresh process with order {:?}: {}", order, text.trim()));
+    }
+    let v: serde_json::Value = serde_json::from_str(text.trim()).map_err(|e| format!("harness: child output: {} ({})", e, text))?;
+    let mut res = vec![];
+    for (k, val) in v.as_object().ok_or("harness: child output not an object")? {
+        res.push((k.parse::<usize>().unwrap_or(0), val.as_str().unwrap_or("").to_string()));
+    }
+    Ok(res)
+}
+
+fn check_proc(c: &ProcCase, info: &mut Info) -> Result<(), String> {
+    let n = c.ops.len();
+    let first: Vec<usize> = (0..n).collect();
+    let mut second: Vec<usize> = (0..n).map(|i| (i + 1 + c.rotate as usize % (n - 1).max(1)) % n).collect();
+    if c.reverse {
+        second.reverse();
+    }
+    if second == first {
+        second.reverse();
+    }
+    // in-process reference (after whatever this long-lived process has done before)
+    let p_prep = aff_c::<G1m>(&G1m::gen()).prepare();
+    let q_prep = aff_c::<G2m>(&G2m::gen()).prepare();
+    let sh = Shared { wb1: None, wb2: None, p_prep: &p_prep, q_prep: &q_prep };
+    let mut lo = Local::new(&sh);
+    let mut reference = vec![];
+    for op in &c.ops {
+        let b = exec(op, &sh, &mut lo)?;
+        reference.push(b.iter().map(|x| format!("{:02x}", x)).collect::<String>());
+    }
+    for order in [&first, &second] {
+        for (i, hexs) in run_child(&c.ops, order)? {
+            if hexs != reference[i] {
+                return Err(format!(
+                    "operation #{} ({:?}) returns different bits in a fresh process that executes the operations in the order {:?} than in the long-lived checking process (dependence on which call came first)",
+                    i, c.ops[i], order
+                ));
+            }
+        }
+    }
+    if c.ops.iter().any(|o| matches!(o, WOp::Mul(_, PointR::Neg(_), _, _) | WOp::DecodeGen(_, true, _))) {
+        info.class("negated-generator-involved");
+    }
+    info.class(format!("ops={}", n));
+    info.nt();
     Ok(())
 }
 
@@ -622,6 +762,7 @@ pub fn def() -> PropDef {
         needs_pairing: false,
         subs: vec![
             Box::new(Sub { name: "workloads", rule: "sequential == re-ordered sequential == concurrent, bit for bit", quick: 640, thorough: 6000, strategy: || boxed(workload_strategy()), check: check_workload }),
+            Box::new(Sub { name: "fresh-process-orders", rule: "2..5 pool-free operations on generator-derived points (+-G multiplications through every path, decoding of +-G, serialization, group operations, pairing of +-generators, hashing, field operations) executed in two FRESH child processes in two different orders and in the long-lived checking process: every operation must return the same bits (exposes lazily initialised process-wide state that captures its first caller)", quick: 40, thorough: 1200, strategy: || boxed(proc_strategy()), check: check_proc }),
             Box::new(Sub { name: "bursts", rule: "4..16 barrier-released threads each repeat a list of 2..4 operations (G1/G2 prepare of a few shared points, pairings, multiplications, hashing, field and group operations) 24..96 times from different starting offsets; every single result must be bit-identical to the sequential reference (exposes check-then-use races on process-wide state, which need call density)", quick: 48, thorough: 1500, strategy: || boxed(burst_strategy()), check: check_burst }),
         ],
         assumptions: {
